@@ -284,7 +284,7 @@ def _part_pt_formats(ctx, cases, fmt, B, torch, ind, SRS, rng, Violation_cls):
     plans = [("RealSemiring", R, (0, 1, 2), real_names, ["+0", "1", "+inf", "minsub"] + ([] if quick else ["1+ulp", "max"])),
              ("ViterbiSemiring", V, (3, 4, 5), vit_names, ["-inf", "+0", "+inf", "-(1+ulp)"] + ([] if quick else ["max", "minsub"])),
              ("LogSemiring", L, (4,), vit_names, ["-inf", "+0", "+inf"] + ([] if quick else ["0.1"]))]
-    if fmt == 32:   # two deliberate overflowing default pairs: the class of F22
+    if fmt == 32:   # two deliberate overflowing default pairs: the class of F22 (repaired in /repo 013a2f3), kept as regression cases
         plans.append(("RealSemiring", R, (1,), ["1", "3"], ["max", "3"]))
         plans.append(("ViterbiSemiring", V, (4,), ["1", "3"], ["max"]))
     for sname, S, opcodes, vnames, dnames in plans:
@@ -320,7 +320,7 @@ def _part_pt_formats(ctx, cases, fmt, B, torch, ind, SRS, rng, Violation_cls):
                                 "%s on float%d PatternedTensors (%s default %r, %s default %r) raised %r%s; on the dense tensors it does not raise"
                                 % (mname, fmt, nx, dx, ny, dy, e, " (result default %r is finite in binary64 but beyond the float32 range)" % d if f22 else ""),
                                 case=case, observed=repr(e), oracle="dense result", corr="C08 representation independence (float formats)",
-                                call="%s(PatternedTensor, PatternedTensor)" % mname, finding_key=F22_KEY if f22 else None))
+                                call="%s(PatternedTensor, PatternedTensor)" % mname))   # F22 is repaired in /repo (013a2f3): a regression is a plain violation
                             continue
                         ctx.nontrivial.add(("ffpt", fmt, op, sname, nx, ny, dx, dy))
                         full = torch.broadcast_shapes(dxs.shape, dys.shape)
